@@ -108,6 +108,8 @@ type Thread struct {
 	Wait      func(e *Engine, st *State) bool // non-nil: blocked until it returns true (clone-safe)
 	Name      string
 	Result    Value
+	Sleeping  bool
+	SleepSnap int
 }
 
 func (t *Thread) clone() *Thread {
